@@ -325,8 +325,8 @@ pub fn def(ctx: &Ctx) -> PropertyDef {
         ),
         Section::random(
             "high-degree",
-            ctx.cases(12, 240),
-            move || (star_spec(t.pick(16, 18)), any::<u32>()),
+            ctx.cases(7, 240),
+            move || (star_spec(t.pick(13, 16)), any::<u32>()),
             |c: &(StarSpec, u32), obs| {
                 let d = c.0.to_diag();
                 obs.class_if(
